@@ -30,7 +30,7 @@ func init() {
 		Explanation: "Thin structural clauses behind 'presentation changes do not matter': (R05.1) with normalisation on, every rune that enters a word buffer went through unicode.ToLower; (R05.2) the punctuation table maps every typographic dash to '-' and has lower-case-stable values; (R08.5) the decoder window (so that moving text by a few bytes cannot change a rune); (R08.6) the scan position moves only by the size of the decoded rune; (R03.9) line accounting: line + held line breaks advance by exactly one per decoded '\\n' and not otherwise; (R05.3) the token clean-up returns text it built rune by rune, never its raw argument (unless shown to be letters only). " +
 			"Whitespace and decoration handling of the rune state machine are NOT decided."})
 	register(&Check{ID: "C06", Modules: []string{"v2"}, Run: runC06,
-		Explanation: "Structural clauses behind 'notices, markers, hyphenation and spelling variants are ignored': (R06.1) the interchangeable-word table is well formed (letters-only lower-case keys map to letters-only lower-case values that are not keys); (R06.3) the hyphenation flags survive buffer refills; (R06.4) the https->http rewrite applies to every occurrence in a token and is idempotent; " +
+		Explanation: "Structural clauses behind 'notices, markers, hyphenation and spelling variants are ignored': (R06.1) the interchangeable-word table is well formed (letters-only lower-case keys map to letters-only lower-case values that are not keys); (R06.3) the hyphenation flags survive buffer refills; (R06.4) the https->http rewrite applies to every occurrence in a token, is repeated to a fixed point and is applied to the cleaned word as well (a cleaned word is a fixed point of the tokenizer); " +
 			"(R06.5) the text of a token is cleanupToken(position in line, word) computed at its own position; (R03.7) Copyright literals; (R06.2) Copyright pseudo-matches are kept apart from the overlap filter - fails today (known finding D12). Regex coverage of notice templates and list markers is NOT decided."})
 	register(&Check{ID: "C11", Modules: []string{"v2"}, Run: runC11,
 		Explanation: "Thin structural clauses behind 'Normalize lines up with Match': (R11.1) non-interference: the line counter and every Line stored do not depend on the normalize/updateDict flags; (R11.2) Normalize and match use the same tokenizeStream and Normalize returns memory allocated by the call; (R11.3) the ignorable-line patterns are case-insensitive (Normalize sees un-lowered text); " +
@@ -658,7 +658,21 @@ func runC06(c *Ctx) {
 				if fn.Signature.Results().Len() == 1 && isString(fn.Signature.Results().At(0).Type()) {
 					for _, b := range fn.Blocks {
 						if ret, isRet := b.Instrs[len(b.Instrs)-1].(*ssa.Return); isRet && len(ret.Results) == 1 && ret.Results[0] != ssa.Value(cv) {
-							okAll, why = false, "a path returns "+ret.Results[0].String()+" instead of the rewritten token"
+							// the loop form: a phi of the parameter (nothing to rewrite) and the rewritten value
+							loopForm := false
+							if ph, isPhi := ret.Results[0].(*ssa.Phi); isPhi {
+								loopForm = true
+								for _, e := range ph.Edges {
+									if e != ssa.Value(cv) && e != ssa.Value(ph) {
+										if _, isPrm := e.(*ssa.Parameter); !isPrm {
+											loopForm = false
+										}
+									}
+								}
+							}
+							if !loopForm {
+								okAll, why = false, "a path returns "+ret.Results[0].String()+" instead of the rewritten token"
+							}
 						}
 					}
 				}
@@ -670,6 +684,70 @@ func runC06(c *Ctx) {
 		}
 		if len(sites) == 0 {
 			okAll, why = false, "no replace-all of the https scheme is applied to a word before it is interned"
+		}
+		// the rewrite runs to a fixed point (removing an "s" can bring the next one up) ...
+		for _, cv := range sites {
+			from, _ := core.ConstString(cv.Call.Args[1])
+			fix := false
+			for _, ft := range core.FactsAt(cv.Block()) {
+				if call, isCall := ft.Cond.(*ssa.Call); isCall && ft.Truth && core.StaticCalleeName(&call.Call) == "strings.Contains" {
+					if k, isK := core.ConstString(call.Call.Args[1]); isK && k == from {
+						fix = true
+					}
+				}
+			}
+			c.R.Check(fix, "R06.4", "the scheme rewrite is repeated until nothing is left to rewrite", p.Pos(cv.Pos()), "ReplaceAll runs in a loop guarded by strings.Contains of the same constant",
+				"one pass of the rewrite can leave a new occurrence behind (\"httpss\" -> \"https\"): tokenizing the rewritten word again changes it, so the normalised text does not match like the original")
+		}
+		// ... and is applied to the cleaned word too: stripping punctuation can create a new occurrence
+		// ("http://spdx.org" -> "httpspdxorg")
+		if ct := p.Func(v2pkg, "cleanupToken"); ct != nil {
+			rewriteFn := map[*ssa.Function]bool{}
+			for _, cv := range sites {
+				rewriteFn[cv.Parent()] = true
+			}
+			set := map[ssa.Value]bool{}
+			for _, call := range core.CallsIn(ct) {
+				if cv, isCall := call.(*ssa.Call); isCall {
+					if f := cv.Call.StaticCallee(); (f != nil && rewriteFn[f]) || (rewriteFn[ct] && isCallTo(cv, "strings.ReplaceAll")) {
+						set[cv] = true
+					}
+				}
+			}
+			nRet := 0
+			for _, b := range ct.Blocks {
+				ret, isRet := b.Instrs[len(b.Instrs)-1].(*ssa.Return)
+				if !isRet || len(ret.Results) != 1 {
+					continue
+				}
+				r := ret.Results[0]
+				if _, isConst := r.(*ssa.Const); isConst {
+					continue
+				}
+				// a table entry (spelling variants) or the number path (no letters left) cannot contain the scheme
+				if ex, isEx := r.(*ssa.Extract); isEx {
+					if _, isLk := ex.Tuple.(*ssa.Lookup); isLk {
+						continue
+					}
+				}
+				if _, isLk := r.(*ssa.Lookup); isLk {
+					continue
+				}
+				numberPath := false
+				for _, ft := range core.FactsAt(b) {
+					if call, isCall := ft.Cond.(*ssa.Call); isCall && ft.Truth && core.StaticCalleeName(&call.Call) == "unicode.IsDigit" {
+						numberPath = true
+					}
+				}
+				if numberPath {
+					continue
+				}
+				nRet++
+				dep := dependsOnAnyThroughPhi(r, set, 0)
+				c.R.Check(dep, "R06.4", "cleanupToken: the cleaned word passes through the scheme rewrite before it is returned", p.Pos(ret.Pos()), "the returned word is the result of the rewrite on every path",
+					"stripping the punctuation out of a URL can create a new \"https\" (\"http://spdx.org\" -> \"httpspdxorg\") that the rewrite, applied only to the raw word, never sees: Normalize writes that word out and tokenizing it again rewrites it, so the normalised text matches differently from the original")
+			}
+			c.R.RequireMin("R06.4", "word-returning paths of cleanupToken", nRet, 1)
 		}
 		if okAll {
 			why = fmt.Sprintf("%d strings.ReplaceAll site(s) on the word that is interned", len(sites))
